@@ -339,4 +339,8 @@ Reinit ==
 
 Bound == Len(hist) <= MaxHist
 View  == mvars
+\* state identity for the transition tour: what the last step wrote is a function of the
+\* source state and the action, so it need not distinguish states
+TourView == <<phase, enabled, canResume, out, inH, unacked, report, reportCount, conn, nid,
+              smAct, sess, covered, tracked, order, sessRecv>>
 =============================================================================
